@@ -8,8 +8,32 @@
 //!          | (seg 2 (route ..))   .child(StaticVec::from(vec![routes ..]))
 //!   seg    : (0 bytes) StaticSegment | (1 name) ParamSegment | (2 name) OptionalParamSegment
 //!          | (3 name) WildcardSegment | (4) () | (5 (seg ..)) tuple of 1..12 segments
-//!   a 5th element `1` in the case makes the top-level siblings a StaticVec instead of a tuple
+//!          | (seg 3)       .child(())  (the unit `MatchNestedRoutes`: matches everything, adds `Unit`)
+//!   sibling lists of 13..16 routes are real tuples of that arity behind a forwarding `Clone` wrapper
 //!   path   : bytes (valid UTF-8)
+//!   5th element = flags (the model ignores bits 0..4: representations, not semantics):
+//!     1   the top-level siblings are a StaticVec instead of a tuple
+//!     2   every segment value is handed over as Box<dyn PossibleRouteMatch + Send + Sync>
+//!     4   .. as Arc<dyn PossibleRouteMatch + Send + Sync>
+//!     8   static segments are StaticSegment<T> for a user type T: AsPath (not &'static str)
+//!     16  the base is a &'static str (Cow::Borrowed) instead of a String
+//!     32  (op 2) into_paths(None): no prerendered params at all
+//!     64  (op 2) the StaticParamsMap is built with FromIterator (duplicates kept, first wins)
+//!     128 (op 2) the builder is reached through RouteListing::into_static_paths
+//!                (SsrMode::Static(StaticRoute::new().prerender_params(..)))
+//!     256 (op 4) <FlatRoutes> instead of <Routes>
+//!
+//! case  : (3 seg path [flags])   PossibleRouteMatch::test called directly on a segment value
+//!   observation : () no match | (-1) panic | (1 matched remaining params is_complete)
+//!
+//! case  : (4 base routes flags excluded)   the server's route table: a real app
+//!   <Router base?><Routes|FlatRoutes fallback>{routes}</..></Router> handed to
+//!   RouteList::generate, leptos_axum::generate_route_list_with_exclusions and
+//!   leptos_actix::generate_route_list_with_exclusions; excluded = (path ..)
+//!   observation : (((pseg ..) ..)  ((axum-path n-methods) ..)  ((actix-path n-methods) ..))
+//!
+//! case  : (5 i)   the i-th literal of a fixed list compiled through the `path!` macro
+//!   observation : () beyond the list | (literal (pseg ..))
 //!
 //! case  : (2 base routes pmap [1])   pmap = ((name (value ..)) ..)
 //!   drives the REAL path builder (static_routes.rs): for every generated flat route, with
@@ -34,15 +58,15 @@
 use leptos_router::{
     any_nested_match::AnyNestedMatch,
     any_nested_route::{AnyNestedRoute, IntoAnyNestedRoute},
-    ExpandOptionals, MatchInterface, MatchNestedRoutes, MatchParams,
-    NestedRoute, OptionalParamSegment, ParamSegment, PartialPathMatch,
-    PathSegment, PossibleRouteMatch, RouteDefs, RouteMatchId, StaticSegment,
-    WildcardSegment,
+    AsPath, ExpandOptionals, GeneratedRouteData, MatchInterface,
+    MatchNestedRoutes, MatchParams, NestedRoute, OptionalParamSegment,
+    ParamSegment, PartialPathMatch, PathSegment, PossibleRouteMatch,
+    RouteDefs, RouteMatchId, StaticSegment, WildcardSegment,
 };
 use std::{
     collections::HashMap,
     panic::{catch_unwind, AssertUnwindSafe},
-    sync::Mutex,
+    sync::{Arc, Mutex},
 };
 use leptos::tachys::view::iterators::StaticVec;
 use vsexp::{Lst, Num, Sexp};
@@ -63,9 +87,55 @@ macro_rules! tup {
     ($next:ident; $($i:tt)*) => { ( $( { let _ = $i; $next() }, )* ) };
 }
 
+/// a user-defined `AsPath` type (upstream's tests use an enum)
+#[derive(Debug, Clone, Copy, PartialEq, Eq, Hash)]
+pub(crate) struct Interned(&'static str);
+impl AsPath for Interned {
+    fn as_path(&self) -> &'static str {
+        self.0
+    }
+}
+
+/// `Box<dyn PossibleRouteMatch + Send + Sync>` with the `Clone` + `Debug` the tuple impls need
+pub(crate) struct BoxSeg {
+    inner: Box<dyn PossibleRouteMatch + Send + Sync>,
+    src: Box<Seg>,
+}
+impl BoxSeg {
+    fn new(seg: Seg) -> Self {
+        BoxSeg {
+            inner: Box::new(seg.clone()),
+            src: Box::new(seg),
+        }
+    }
+}
+impl Clone for BoxSeg {
+    fn clone(&self) -> Self {
+        BoxSeg::new((*self.src).clone())
+    }
+}
+impl std::fmt::Debug for BoxSeg {
+    fn fmt(&self, f: &mut std::fmt::Formatter<'_>) -> std::fmt::Result {
+        write!(f, "Box({:?})", self.src)
+    }
+}
+/// `Arc<dyn PossibleRouteMatch + Send + Sync>`
+#[derive(Clone)]
+pub(crate) struct ArcSeg {
+    inner: Arc<dyn PossibleRouteMatch + Send + Sync>,
+}
+impl std::fmt::Debug for ArcSeg {
+    fn fmt(&self, f: &mut std::fmt::Formatter<'_>) -> std::fmt::Result {
+        write!(f, "Arc(..)")
+    }
+}
+
 #[derive(Debug, Clone)]
 pub(crate) enum Seg {
     S(StaticSegment<&'static str>),
+    SI(StaticSegment<Interned>),
+    Bx(BoxSeg),
+    Ax(ArcSeg),
     P(ParamSegment),
     O(OptionalParamSegment),
     W(WildcardSegment),
@@ -88,6 +158,15 @@ macro_rules! fwd {
     ($self:ident, $x:ident => $e:expr) => {
         match $self {
             Seg::S($x) => $e,
+            Seg::SI($x) => $e,
+            Seg::Bx(b) => {
+                let $x = &b.inner;
+                $e
+            }
+            Seg::Ax(b) => {
+                let $x = &b.inner;
+                $e
+            }
             Seg::P($x) => $e,
             Seg::O($x) => $e,
             Seg::W($x) => $e,
@@ -173,14 +252,38 @@ fn text(s: &Sexp) -> String {
 }
 
 pub(crate) fn build_seg(s: &Sexp) -> Seg {
-    match s.at(0).num() {
+    build_seg_with(s, 0)
+}
+
+fn wrap(seg: Seg, flags: i64) -> Seg {
+    if flags & 2 != 0 {
+        Seg::Bx(BoxSeg::new(seg))
+    } else if flags & 4 != 0 {
+        Seg::Ax(ArcSeg {
+            inner: Arc::new(seg),
+        })
+    } else {
+        seg
+    }
+}
+
+pub(crate) fn build_seg_with(s: &Sexp, flags: i64) -> Seg {
+    let seg = match s.at(0).num() {
+        0 if flags & 8 != 0 => {
+            Seg::SI(StaticSegment(Interned(intern(text(s.at(1))))))
+        }
         0 => Seg::S(StaticSegment(intern(text(s.at(1))))),
         1 => Seg::P(ParamSegment(intern(text(s.at(1))))),
         2 => Seg::O(OptionalParamSegment(intern(text(s.at(1))))),
         3 => Seg::W(WildcardSegment(intern(text(s.at(1))))),
         4 => Seg::U(()),
         5 => {
-            let mut v: Vec<Seg> = s.at(1).list().iter().map(build_seg).collect();
+            let mut v: Vec<Seg> = s
+                .at(1)
+                .list()
+                .iter()
+                .map(|x| build_seg_with(x, flags))
+                .collect();
             let n = v.len();
             let mut next = || v.remove(0);
             match n {
@@ -207,30 +310,78 @@ pub(crate) fn build_seg(s: &Sexp) -> Seg {
             }
         }
         k => panic!("unknown segment kind {k}"),
-    }
+    };
+    wrap(seg, flags)
 }
 
 // ---------------------------------------------------------------- nested routes
-fn build_route(r: &Sexp) -> AnyNestedRoute {
-    let seg = build_seg(r.at(0));
+fn build_route(r: &Sexp, flags: i64) -> AnyNestedRoute {
+    let seg = build_seg_with(r.at(0), flags);
     // NestedRoute::new takes the next id: pre-order numbering
     let route = NestedRoute::new(seg, || ());
     match r.at(1).num() {
         0 => route.into_any_nested_route(),
-        2 => route.child(build_static_vec(r.at(2))).into_any_nested_route(),
-        _ => route.child(build_siblings(r.at(2))).into_any_nested_route(),
+        2 => route
+            .child(build_static_vec(r.at(2), flags))
+            .into_any_nested_route(),
+        3 => route.child(()).into_any_nested_route(),
+        _ => route
+            .child(build_siblings(r.at(2), flags))
+            .into_any_nested_route(),
     }
 }
 
 /// `StaticVec<AnyNestedRoute>` (tachys::view::iterators), which also implements MatchNestedRoutes
-fn build_static_vec(l: &Sexp) -> AnyNestedRoute {
-    let v: Vec<AnyNestedRoute> = l.list().iter().map(build_route).collect();
+fn build_static_vec(l: &Sexp, flags: i64) -> AnyNestedRoute {
+    let v: Vec<AnyNestedRoute> =
+        l.list().iter().map(|r| build_route(r, flags)).collect();
     StaticVec::from(v).into_any_nested_route()
 }
 
+macro_rules! anyty {
+    ($i:tt) => {
+        AnyNestedRoute
+    };
+}
+/// std implements `Clone` for tuples up to arity 12 only; `into_any_nested_route` wants `Clone`.
+/// These wrappers hold a REAL tuple of 13..16 routes and forward the trait to it.
+macro_rules! big {
+    ($name:ident; $($i:tt)*) => {
+        struct $name(( $( anyty!($i), )* ));
+        impl Clone for $name {
+            fn clone(&self) -> Self {
+                $name(( $( (self.0).$i.clone(), )* ))
+            }
+        }
+        impl MatchNestedRoutes for $name {
+            type Data = <( $( anyty!($i), )* ) as MatchNestedRoutes>::Data;
+            type Match = <( $( anyty!($i), )* ) as MatchNestedRoutes>::Match;
+            fn match_nested<'a>(
+                &'a self,
+                path: &'a str,
+            ) -> (Option<(RouteMatchId, Self::Match)>, &'a str) {
+                self.0.match_nested(path)
+            }
+            fn generate_routes(
+                &self,
+            ) -> impl IntoIterator<Item = GeneratedRouteData> + '_ {
+                self.0.generate_routes()
+            }
+            fn optional(&self) -> bool {
+                self.0.optional()
+            }
+        }
+    };
+}
+big!(Big13; 0 1 2 3 4 5 6 7 8 9 10 11 12);
+big!(Big14; 0 1 2 3 4 5 6 7 8 9 10 11 12 13);
+big!(Big15; 0 1 2 3 4 5 6 7 8 9 10 11 12 13 14);
+big!(Big16; 0 1 2 3 4 5 6 7 8 9 10 11 12 13 14 15);
+
 /// a real tuple `(A,)`, `(A, B)`, .. of the given routes (erased afterwards)
-fn build_siblings(l: &Sexp) -> AnyNestedRoute {
-    let mut v: Vec<AnyNestedRoute> = l.list().iter().map(build_route).collect();
+fn build_siblings(l: &Sexp, flags: i64) -> AnyNestedRoute {
+    let mut v: Vec<AnyNestedRoute> =
+        l.list().iter().map(|r| build_route(r, flags)).collect();
     let n = v.len();
     let mut next = || v.remove(0);
     match n {
@@ -247,7 +398,48 @@ fn build_siblings(l: &Sexp) -> AnyNestedRoute {
         10 => tup!(next; 1 2 3 4 5 6 7 8 9 10).into_any_nested_route(),
         11 => tup!(next; 1 2 3 4 5 6 7 8 9 10 11).into_any_nested_route(),
         12 => tup!(next; 1 2 3 4 5 6 7 8 9 10 11 12).into_any_nested_route(),
+        13 => Big13(tup!(next; 1 2 3 4 5 6 7 8 9 10 11 12 13))
+            .into_any_nested_route(),
+        14 => Big14(tup!(next; 1 2 3 4 5 6 7 8 9 10 11 12 13 14))
+            .into_any_nested_route(),
+        15 => Big15(tup!(next; 1 2 3 4 5 6 7 8 9 10 11 12 13 14 15))
+            .into_any_nested_route(),
+        16 => Big16(tup!(next; 1 2 3 4 5 6 7 8 9 10 11 12 13 14 15 16))
+            .into_any_nested_route(),
         n => panic!("unsupported sibling count {n}"),
+    }
+}
+
+/// route ids are a wrapping u16 counter; `()` as a child reports id 0.  Make sure no real
+/// route of this case gets id 0 (burn ids up to the wrap if it is near), then return the id
+/// the first route of the case will get.
+fn first_route_id() -> u16 {
+    let mut cur = raw_id(RouteMatchId::new_from_route_id());
+    while cur > u16::MAX - 2048 || cur == 0 {
+        cur = raw_id(RouteMatchId::new_from_route_id());
+    }
+    cur.wrapping_add(1)
+}
+
+fn build_children(routes: &Sexp, flags: i64) -> AnyNestedRoute {
+    if flags & 1 != 0 {
+        build_static_vec(routes, flags)
+    } else {
+        build_siblings(routes, flags)
+    }
+}
+
+fn build_defs(
+    base: &Sexp,
+    children: &AnyNestedRoute,
+    flags: i64,
+) -> RouteDefs<AnyNestedRoute> {
+    match base.list().first() {
+        None => RouteDefs::new(children.clone()),
+        Some(b) if flags & 16 != 0 => {
+            RouteDefs::new_with_base(children.clone(), intern(text(b)))
+        }
+        Some(b) => RouteDefs::new_with_base(children.clone(), text(b)),
     }
 }
 
@@ -279,7 +471,13 @@ fn chain_and_params(m: AnyNestedMatch, first_id: u16) -> (Sexp, Sexp) {
     let mut chain = vec![];
     let mut cur = Some(m);
     while let Some(m) = cur {
-        let id = raw_id(m.as_id()).wrapping_sub(first_id);
+        let raw = raw_id(m.as_id());
+        if raw == 0 {
+            // the `()` child of a `.child(())` route (first_route_id keeps 0 free)
+            chain.push(Lst(vec![Num(-2), Sexp::from_str(m.as_matched())]));
+            break;
+        }
+        let id = raw.wrapping_sub(first_id);
         chain.push(Lst(vec![Num(id as i64), Sexp::from_str(m.as_matched())]));
         let (_, child) = m.into_view_and_child();
         cur = child;
@@ -291,20 +489,29 @@ fn run_build(c: &Sexp) -> Sexp {
     use leptos_router::static_routes::{StaticParamsMap, StaticPath};
     let base = c.at(1);
     let routes = c.at(2);
-    let mut pmap = StaticParamsMap::new();
-    for kv in c.at(3).list() {
-        pmap.insert(text(kv.at(0)), kv.at(1).list().iter().map(text).collect());
-    }
-    let first_id = raw_id(RouteMatchId::new_from_route_id()).wrapping_add(1);
-    let children = if c.at(4).num() == 1 {
-        build_static_vec(routes)
+    let flags = c.at(4).num();
+    let entries: Vec<(String, Vec<String>)> = c
+        .at(3)
+        .list()
+        .iter()
+        .map(|kv| (text(kv.at(0)), kv.at(1).list().iter().map(text).collect()))
+        .collect();
+    // the prerendered params: None at all, collected (duplicate names kept, `get` = first),
+    // or inserted one by one (a later insert replaces the values of the name)
+    let pmap: Option<StaticParamsMap> = if flags & 32 != 0 {
+        None
+    } else if flags & 64 != 0 {
+        Some(entries.iter().cloned().collect())
     } else {
-        build_siblings(routes)
+        let mut m = StaticParamsMap::new();
+        for (k, vs) in &entries {
+            m.insert(k, vs.clone());
+        }
+        Some(m)
     };
-    let defs = match base.list().first() {
-        None => RouteDefs::new(children.clone()),
-        Some(b) => RouteDefs::new_with_base(children.clone(), text(b)),
-    };
+    let first_id = first_route_id();
+    let children = build_children(routes, flags);
+    let defs = build_defs(base, &children, flags);
     let (gbase, flat) = {
         let (b, rs) = defs.generate_routes();
         (
@@ -328,7 +535,25 @@ fn run_build(c: &Sexp) -> Sexp {
             .chain(segs.iter().cloned())
             .collect();
         let built = catch_unwind(AssertUnwindSafe(|| {
-            StaticPath::new(full).into_paths(Some(pmap.clone()))
+            if flags & 128 != 0 {
+                // the way the integrations reach the builder
+                use leptos_router::{
+                    static_routes::StaticRoute, RouteListing, SsrMode,
+                };
+                let route = match pmap.clone() {
+                    None => StaticRoute::new(),
+                    Some(pm) => StaticRoute::new().prerender_params(move || {
+                        let pm = pm.clone();
+                        async move { pm }
+                    }),
+                };
+                let listing =
+                    RouteListing::new(full, SsrMode::Static(route), [], []);
+                futures::executor::block_on(listing.into_static_paths())
+                    .expect("a static route has static paths")
+            } else {
+                StaticPath::new(full).into_paths(pmap.clone())
+            }
         }));
         match built {
             Err(_) => Lst(vec![Num(-1)]),
@@ -364,26 +589,165 @@ fn run_build(c: &Sexp) -> Sexp {
     Lst(vec![s_base, s_flat, per_route])
 }
 
+/// op 3: `PossibleRouteMatch::test` as a public entry point
+fn run_test(c: &Sexp) -> Sexp {
+    let flags = c.at(3).num();
+    let seg = build_seg_with(c.at(1), flags);
+    let path = text(c.at(2));
+    match catch_unwind(AssertUnwindSafe(|| {
+        seg.test(&path).map(|m| {
+            let complete = m.is_complete();
+            let matched = Sexp::from_str(m.matched());
+            let remaining = Sexp::from_str(m.remaining());
+            let params = Lst(m
+                .params()
+                .iter()
+                .map(|(k, v)| Lst(vec![Sexp::from_str(k), Sexp::from_str(v)]))
+                .collect());
+            Lst(vec![Num(1), matched, remaining, params, Sexp::bool(complete)])
+        })
+    })) {
+        Err(_) => Lst(vec![Num(-1)]),
+        Ok(None) => Lst(vec![]),
+        Ok(Some(v)) => v,
+    }
+}
+
+/// op 4: the route table the server integrations register for a real app
+fn run_listing(c: &Sexp) -> Sexp {
+    use leptos::{children::ToChildren, prelude::*};
+    use leptos_router::{
+        components::{
+            FlatRoutes, FlatRoutesProps, RouteChildren, Router, Routes,
+            RoutesProps,
+        },
+        RouteList,
+    };
+    let base: Option<String> = c.at(1).list().first().map(text);
+    let flags = c.at(3).num();
+    let children = build_children(c.at(2), flags);
+    let excluded: Vec<String> = c.at(4).list().iter().map(text).collect();
+    let flat = flags & 256 != 0;
+    let app = move || {
+        let defs = children.clone();
+        let inner = move || {
+            if flat {
+                FlatRoutes(
+                    FlatRoutesProps::builder()
+                        .fallback(|| "notfound")
+                        .children(<RouteChildren<AnyNestedRoute> as ToChildren<_>>::to_children(move || defs))
+                        .build(),
+                )
+                .into_any()
+            } else {
+                Routes(
+                    RoutesProps::builder()
+                        .fallback(|| "notfound")
+                        .children(<RouteChildren<AnyNestedRoute> as ToChildren<_>>::to_children(move || defs))
+                        .build(),
+                )
+                .into_any()
+            }
+        };
+        match base.clone() {
+            None => view! { <Router>{inner()}</Router> }.into_any(),
+            Some(b) => view! { <Router base=b>{inner()}</Router> }.into_any(),
+        }
+    };
+    // what the router itself registers
+    let listing = {
+        let owner = Owner::new();
+        let l = owner.with(|| {
+            provide_context(leptos_router::location::RequestUrl::new(""));
+            RouteList::generate(&app)
+        });
+        drop(owner);
+        match l {
+            None => Lst(vec![Num(-1)]),
+            Some(l) => Lst(l
+                .into_inner()
+                .iter()
+                .map(|r| Lst(r.path().iter().map(pseg).collect()))
+                .collect()),
+        }
+    };
+    let ex = if excluded.is_empty() {
+        None
+    } else {
+        Some(excluded)
+    };
+    let axum = Lst(leptos_axum::generate_route_list_with_exclusions(
+        app.clone(),
+        ex.clone(),
+    )
+    .iter()
+    .map(|r| {
+        Lst(vec![
+            Sexp::from_str(r.path()),
+            Num(r.methods().count() as i64),
+        ])
+    })
+    .collect());
+    let actix = Lst(leptos_actix::generate_route_list_with_exclusions(
+        app.clone(),
+        ex,
+    )
+    .iter()
+    .map(|r| {
+        Lst(vec![
+            Sexp::from_str(r.path()),
+            Num(r.methods().count() as i64),
+        ])
+    })
+    .collect());
+    Lst(vec![listing, axum, actix])
+}
+
+/// op 5: literals that went through the `path!` proc macro at compile time
+fn run_path_macro(c: &Sexp) -> Sexp {
+    macro_rules! lits {
+        ($($l:tt)*) => {
+            vec![ $( ($l, {
+                let mut v: Vec<PathSegment> = vec![];
+                PossibleRouteMatch::generate_path(&leptos_router::path!($l), &mut v);
+                v
+            }) ),* ]
+        };
+    }
+    let all: Vec<(&'static str, Vec<PathSegment>)> = lits!(
+        "" "/" "/foo" "foo" "/foo/" "foo/" "/foo/bar" "/foo/bar/" "foo/bar"
+        "/:id" ":id" "/:id/" "/:id?" ":id?" "/:a?/:b?" "/:a?/:b?/" "/foo/:id/bar"
+        "/*any" "*any" "/foo/*rest" "/foo/:bar/:baz?/*any" "/a/b/c/d/e/f/g/h/i/j/k/l"
+        "/foo/:id?/" "/-._~@" "/A1/b2" "/:x/:x" "*" "/*" "/:a?/b" "/users/:id/posts/:post_id"
+        "/a/" "/:a/:b/:c" "/x/:y?/*z" "/:a/" "/0" "/foo.bar/baz~" "/:snake_case" "/*rest_of"
+        "/a/:b?/:c?/:d?" "/@user/:name"
+    );
+    match all.get(c.at(1).num() as usize) {
+        None => Lst(vec![]),
+        Some((lit, segs)) => Lst(vec![
+            Sexp::from_str(lit),
+            Lst(segs.iter().map(pseg).collect()),
+        ]),
+    }
+}
+
 pub fn run(c: &Sexp) -> Sexp {
-    if c.at(0).num() == 2 {
-        return run_build(c);
+    match c.at(0).num() {
+        2 => return run_build(c),
+        3 => return run_test(c),
+        4 => return run_listing(c),
+        5 => return run_path_macro(c),
+        _ => {}
     }
     let base = c.at(1);
     let routes = c.at(2);
     let path = text(c.at(3));
+    let flags = c.at(4).num();
 
     // ids handed out from here on are consecutive (mod 2^16)
-    let first_id = raw_id(RouteMatchId::new_from_route_id()).wrapping_add(1);
-    let children = if c.at(4).num() == 1 {
-        build_static_vec(routes)
-    } else {
-        build_siblings(routes)
-    };
-    let defs = match base.list().first() {
-        None => RouteDefs::new(children.clone()),
-        Some(b) => RouteDefs::new_with_base(children.clone(), text(b)),
-    };
-
+    let first_id = first_route_id();
+    let children = build_children(routes, flags);
+    let defs = build_defs(base, &children, flags);
     let (gbase, flat) = {
         let (b, rs) = defs.generate_routes();
         (
